@@ -15,6 +15,7 @@
 package pbft
 
 import (
+	"os"
 	"time"
 
 	"github.com/dappledger/AnnChain/gemmill/go-wire"
@@ -75,9 +76,30 @@ func (wal *WAL) OnStart() error {
 		return err
 	} else if size == 0 {
 		wal.writeHeight(1)
+	} else if !endsWithNewline(wal.group.Head.Path, size) {
+		// The previous process died in the middle of a record. Terminate the fragment so that
+		// the records we append from now on start on their own line.
+		wal.group.WriteLine("")
+		if err := wal.group.Flush(); err != nil {
+			return err
+		}
 	}
 	_, err = wal.group.Start()
 	return err
+}
+
+// endsWithNewline reports whether the file's last byte is a line terminator.
+func endsWithNewline(path string, size int64) bool {
+	f, err := os.Open(path)
+	if err != nil {
+		return true
+	}
+	defer f.Close()
+	var b [1]byte
+	if _, err := f.ReadAt(b[:], size-1); err != nil {
+		return true
+	}
+	return b[0] == '\n'
 }
 
 func (wal *WAL) OnStop() {
